@@ -48,7 +48,7 @@ impl Prop for C16 {
         "exploration"
     }
     fn rule(&self) -> String {
-        "E5 environment-answer exploration: 10 RNG-taking entry points x suites x (n,t) (|H|, batch size) x streams. Oracles: (a) same stream => bit-identical outputs; (b) another stream => EVERY listed secret-derived value changes (key, each coefficient commitment C_1..C_{t-1}, proof commitment, each delta, seed, randomizer); (c) within one call the listed values are pairwise distinct; (d) bytes consumed >= 16 per secret value; (e) EVERY single-draw deviation (draw j answered from another stream, all other draws unchanged), j over every draw the entry point makes, changes the output - no draw is consumed and ignored, none is reused; (f) a zero answer to the key draw / proof-nonce draw is rejected and re-drawn. Non-trivial = entry point executed with at least one draw".into()
+        "E5 environment-answer exploration: 10 RNG-taking entry points x suites x (n,t) (|H|, batch size) x streams. Oracles: (a) same stream => bit-identical outputs; (b) another stream => EVERY listed secret-derived value changes (key, each coefficient commitment C_1..C_{t-1}, proof commitment, each delta, seed, randomizer); (c) within one call the listed values are pairwise distinct; (d) bytes consumed >= 16 per secret value; (e) EVERY single-draw deviation (draw j answered from another stream, all other draws unchanged), j over every draw the entry point makes, changes the output - no draw is consumed and ignored, none is reused; (f) a zero answer to the key draw / proof-nonce draw is rejected and re-drawn; (g) the outputs equal those of a SEPARATE process under the same source. Non-trivial = entry point executed with at least one draw".into()
     }
     fn assumptions(&self) -> Vec<String> {
         vec![
